@@ -32,6 +32,26 @@ pub enum Status {
 pub enum PointKind {
     Start,
     Hook(Point),
+    /// a scheduling point of the harness' own making (e.g. the destructor of a data payload): code of the crate that runs
+    /// user code between two of its own synchronisation points can be interleaved there
+    User(&'static str),
+}
+
+static CURRENT: Mutex<Option<Arc<Sched>>> = Mutex::new(None);
+
+/// the scheduler the participating threads of the running execution report to
+pub fn set_current(s: Option<Arc<Sched>>) {
+    *CURRENT.lock().unwrap() = s;
+}
+
+/// called from user code that the crate runs (payload destructors): a scheduling point for participating threads
+pub fn user_point(what: &'static str) {
+    if let Some(t) = tid() {
+        let cur = CURRENT.lock().unwrap().clone();
+        if let Some(s) = cur {
+            s.at_point(t, PointKind::User(what));
+        }
+    }
 }
 
 #[derive(Clone, Debug)]
@@ -143,6 +163,7 @@ impl Sched {
     fn enabled(st: &St, t: usize) -> bool {
         match &st.status[t] {
             Status::AtPoint(PointKind::Start) => true,
+            Status::AtPoint(PointKind::User(_)) => true,
             Status::AtPoint(PointKind::Hook(Point::Rmw { .. })) => true,
             Status::AtPoint(PointKind::Hook(Point::Lock { addr, write, .. })) => match st.locks.get(addr) {
                 None => true,
